@@ -5,9 +5,13 @@ Tie: translator (weibull2gumbel, Gumbel.fit_from_weibull_parameters; identities 
 correspondence of the three entry points with the generated formulas.
 Search: gloc = Weibull (1-1/n)-quantile, gscale = 1/(n·pdf(gloc)) on the implementation; statistics summary
 (`TimeSeries.stats`, `TsDB.stats`, `app.funcs.calculate_stats`): consistency with its parts, affine equivariance,
-minima = mirrored maxima.
+minima = mirrored maxima; the same chain through the fitted-distribution entry points (`Weibull.fit`, `Weibull.fromsignal`,
+`TimeSeries.fit_weibull`) on samples with and without exact ties.
+
+Every generated case is a self-contained JSON dict (`kind` = w2g / fit / summary) that `replay()` re-evaluates.
 """
 import math
+import random
 
 import numpy as np
 
@@ -17,32 +21,307 @@ from .c05 import close
 
 USES_TRANSLATOR = True
 ANCHOR_PREFIX = ("w2g_", "wfw_", "wb_invcdf", "wb_pdf")
-RULE = ("seeded Weibull parameters (loc in [-20,20], scale log-uniform, shape in [0.6,6]) x n in [2, 1e6]; seeded multi-tone + noise "
-        "signals (600-3000 samples, >= 2 global maxima) x affine maps with a = 2^k, b integer x windows / low-pass filter x "
-        "maxima / minima x durations and quantiles; non-trivial = every case; distinct by input")
+RULE = ("seeded Weibull parameters (loc in [-20,20], scale log-uniform, shape in [0.6,6]) x n in [2, 1e6]; fitted distributions on "
+        "seeded samples (continuous / one decimal / integer-valued = exact ties; ndarray or list; drawn / ascending / descending) "
+        "x pwm / msm; seeded multi-tone + noise signals (600-3000 samples, >= 2 global maxima, quantised to 1/1024, 1/8 or 1/2 = "
+        "tied maxima) x affine maps with a = 2^k, b integer x windows / low-pass filter x maxima / minima x durations x 2-4 "
+        "quantiles listed in ANY order (tuple / list / ndarray) x a preceding different query on the same object; "
+        "non-trivial = every case; distinct by input")
+QPOOL = [0.0, 0.05, 0.1, 0.37, 0.5, 0.57, 0.9, 0.95, 0.99]
 
 
-def signal(rng, n):
+def make_signal(sig_seed, n, step=1. / 1024, level=0.0):
+    """seeded multi-tone + noise signal, dyadic quantisation so that x -> a*x + b (a = 2^k, b integer) is exact in floating
+    point; a coarse step gives plateaus and global maxima with exactly equal values"""
+    rng = random.Random(sig_seed)
     t = np.arange(n) * 0.5
     x = np.zeros(n)
     for _ in range(rng.choice([2, 3, 5])):
         x += rng.uniform(0.3, 2.0) * np.sin(2 * np.pi * rng.uniform(0.01, 0.12) * t + rng.uniform(0, 6.28))
     nr = np.random.RandomState(rng.randint(0, 10 ** 6))
     x += 0.2 * nr.standard_normal(n)
-    # dyadic quantisation so that x -> a*x + b (a = 2^k, b integer) is exact in floating point
-    x = np.round(x * 1024) / 1024
+    x = np.round(x / step) * step + level
     return t, x
 
 
-def run(chk):
+def pkey(q):
+    return "p_%.2f" % (100 * q)
+
+
+def fl(v):
+    return [float(u) for u in v]
+
+
+def allclose(a, b, rel):
+    a, b = list(a), list(b)
+    return len(a) == len(b) and all(close(float(u), float(v), rel) for u, v in zip(a, b))
+
+
+# ---- fitted distribution -----------------------------------------------------------------------------------------------------------
+def fit_data(inp):
+    from qats.stats.weibull import Weibull
+    data = Weibull(*inp["w0"]).rnd(size=inp["size"], seed=inp["seed"])
+    if inp.get("decimals") is not None:
+        data = np.round(data, inp["decimals"])
+    if inp.get("order") == "ascending":
+        data = np.sort(data)
+    elif inp.get("order") == "descending":
+        data = np.sort(data)[::-1].copy()
+    return data
+
+
+def fit_clauses(inp):
+    """failing clauses [(oracle, expected, observed)] of the entry point 'distribution fitted to a sample of n peaks'"""
+    from qats.stats import weibull as wb
+    data = fit_data(inp)
+    m = int(data.size)
+    nn = inp["n"]
+    try:
+        ref = tuple(float(v) for v in getattr(wb, inp["method"])(np.array(data)))
+        if not all(np.isfinite(ref)) or ref[1] <= 0 or ref[2] <= 0:
+            return []
+        g_exp, g_def = wb.weibull2gumbel(*ref, nn), wb.weibull2gumbel(*ref, m)
+        if not all(np.isfinite(fl(g_exp + g_def))):
+            return []
+    except Exception:                                   # degenerate sample: no reference chain
+        return []
+    fails = []
+    arg = data.tolist() if inp.get("aslist") else data.copy()
+    try:
+        wf = wb.Weibull.fit(arg, method=inp["method"])
+        g_got_def0 = wf.gumbel_parameters()
+        g_got = wf.gumbel_parameters(n=nn)
+        g_got_def = wf.gumbel_parameters()              # the default must not remember the explicit n
+        wf2 = wb.Weibull.fit(arg, method=inp["method"])  # same sample object again
+        obs = dict(params=fl(wf.params), params_again=fl(wf2.params), held=int(np.size(wf.data)))
+    except Exception as e:
+        return [("Weibull.fit(sample).gumbel_parameters is an entry point of the chain (must not raise)", "parameters", repr(e))]
+    if not (allclose(ref, wf.params, 1e-12) and allclose(ref, wf2.params, 1e-12) and obs["held"] == m):
+        fails.append(("the Weibull peak distribution of Weibull.fit(sample) is the estimator's fit to all n peaks of the sample "
+                      "(ties included) and holds n peaks", dict(params=list(ref), held=m), obs))
+    if not (allclose(g_exp, g_got, 1e-12) and allclose(g_def, g_got_def, 1e-12) and allclose(g_def, g_got_def0, 1e-12)):
+        fails.append(("the three entry points give identical Gumbel parameters (fitted distribution: explicit n honoured, default "
+                      "n = sample size)", fl(g_exp + g_def), fl(g_got + g_got_def + g_got_def0)))
+    return fails
+
+
+# ---- statistics summary ------------------------------------------------------------------------------------------------------------
+def summary_kwargs(inp):
+    kw = {}
+    for k, v in (inp.get("kwargs") or {}).items():
+        kw[k] = tuple(v) if isinstance(v, (list, tuple)) else v
+    return kw
+
+
+def summary_quantiles(inp):
+    q = [float(v) for v in inp["quantiles"]]
+    return {"tuple": tuple(q), "list": list(q), "array": np.array(q)}[inp.get("qtype", "tuple")]
+
+
+def summary_clauses(inp, dist=None):
+    """failing clauses [(oracle, extra_input, expected, observed)] of the statistics summary for one self-contained case"""
     from qats import TimeSeries, TsDB
     from qats.stats.weibull import Weibull, weibull2gumbel
     from qats.stats.gumbel import Gumbel
     from qats.app.funcs import calculate_stats
+    fails = []
+    t, x = make_signal(inp["sig_seed"], inp["n"], inp.get("step", 1. / 1024), inp.get("level", 0.0))
+    n = inp["n"]
+    kw = summary_kwargs(inp)
+    statsdur, ismin = inp["statsdur"], inp["is_minima"]
+    qlist = [float(v) for v in inp["quantiles"]]
+    quant = summary_quantiles(inp)
+    sign = -1.0 if ismin else 1.0
+    ts = TimeSeries("s", t, x)
+    try:
+        if inp.get("prior"):
+            # history: a different query on the same object first
+            ts.stats(statsdur=3600. if statsdur != 3600. else 1000., quantiles=(0.5, 0.1), is_minima=not ismin,
+                     twin=(float(t[n // 4]), float(t[-1])))
+        s = ts.stats(statsdur=statsdur, quantiles=quant, is_minima=ismin, include_sample=True, **kw)
+        tt, xx = ts.get(**kw)
+    except Exception as e:
+        return [("TimeSeries.stats is an entry point of the chain (must not raise)", {}, "summary", repr(e))]
+    if s["sample"] is None or np.size(s["sample"]) < 2:
+        if dist:
+            dist("stats:too-few-maxima")
+        return fails
+    msize = int(np.size(s["sample"]))
+    ties = msize - int(np.unique(s["sample"]).size)
+    if dist:
+        dist("stats:%s:%s:%s:%s" % ("min" if ismin else "max", "twin" if "twin" in kw else ("filter" if kw else "plain"),
+                                    "tied-peaks" if ties else "distinct-peaks",
+                                    "q-ascending" if qlist == sorted(qlist) else "q-unordered"))
+    missing = [pkey(q) for q in qlist if pkey(q) not in s]
+    if missing:
+        return [("the summary has one estimate p_XX per requested quantile", {}, [pkey(q) for q in qlist], missing)]
+    pv = [float(s[pkey(q)]) for q in qlist]
+    dur = float(tt[-1] - tt[0])
+    ok = (s["min"] <= s["mean"] <= s["max"] and close(s["duration"], tt[-1] - tt[0], 1e-12) and s["start"] == tt[0] and
+          s["end"] == tt[-1] and close(s["dtavg"], float(np.mean(np.diff(tt))), 1e-12) and
+          s["min"] == xx.min() and s["max"] == xx.max() and close(s["mean"], float(xx.mean()), 1e-12))
+    if not ok:
+        fails.append(("summary consistent with its parts (min <= mean <= max, start/end/duration, mean step)", {}, "consistent",
+                      {a: float(s[a]) for a in ("min", "mean", "max", "start", "end", "duration", "dtavg")}))
+    wpar = fl(s[k] for k in ("wloc", "wscale", "wshape"))
+    nn = round(statsdur / (tt[-1] - tt[0]) * msize)
+    if not any(np.isnan(pv)):
+        # (a quantile at probability 0 is the lower end of the support: -inf for maxima, +inf for the mirrored minima)
+        byq = sorted(zip(qlist, pv))
+        inc = all((sign * b[1] > sign * a[1]) for a, b in zip(byq, byq[1:]) if b[0] > a[0])
+        if not inc:
+            fails.append(("quantile estimates monotone in the probability (increasing for maxima, mirrored for minima), whatever "
+                          "the order they are requested in", {}, "monotone", [list(v) for v in byq]))
+        # chain: gumbel quantiles of the reported parameters
+        gl, gs = weibull2gumbel(s["wloc"], s["wscale"], s["wshape"], nn)
+        exp = [sign * float(v) for v in Gumbel(gl, gs).invcdf(p=np.array(qlist))]
+        if not (close(gl, s["gloc"], 1e-12) and close(gs, s["gscale"], 1e-12) and all(close(a, b, 1e-12) for a, b in zip(exp, pv))):
+            fails.append(("quantiles are those of the Gumbel derived from the reported Weibull parameters and n = "
+                          "round(statsdur/duration*#maxima): p_XX is its XX % quantile", {},
+                          dict(gloc=float(gl), gscale=float(gs), p=dict(zip(map(pkey, qlist), exp))),
+                          dict(gloc=float(s["gloc"]), gscale=float(s["gscale"]), p=dict(zip(map(pkey, qlist), pv)))))
+        # the property's defining clauses on the reported numbers
+        # (pwm can return a negative scale and shape for a sample: not a Weibull distribution, outside the quantifier)
+        if nn >= 2 and all(np.isfinite(wpar)) and wpar[1] > 0 and wpar[2] > 0 and np.isfinite(s["gloc"]) and np.isfinite(s["gscale"]):
+            w = Weibull(*wpar)
+            q1 = float(w.invcdf(p=[1 - 1 / nn])[0])
+            f1 = float(w.pdf(x=[float(s["gloc"])])[0])
+            if abs(q1 - s["gloc"]) > 1e-9 * (abs(q1) + wpar[1]) + wpar[1] * 1e-9 or not close(1 / (nn * f1), float(s["gscale"]), 1e-8):
+                fails.append(("reported gloc is the 1-1/n quantile of the reported Weibull and gscale == 1/(n * density there)", {},
+                              [q1, 1 / (nn * f1)], [float(s["gloc"]), float(s["gscale"])]))
+    # entry points on the same (possibly tied) peaks: fitted distribution from the signal, and the summary with statsdur = duration
+    if all(np.isfinite(wpar)):
+        try:
+            ws = [("Weibull.fromsignal", Weibull.fromsignal(sign * xx, method="pwm"))]
+            if "filterargs" not in kw:
+                tsf = ts if not ismin else TimeSeries("s", t, -x)
+                ws.append(("TimeSeries.fit_weibull", tsf.fit_weibull(twin=kw.get("twin"), method="pwm")))
+            sd = ts.stats(statsdur=dur, quantiles=quant, is_minima=ismin, **kw)       # n == number of peaks
+            for nm, w in ws:
+                if not (allclose(w.params, wpar, 1e-12) and int(np.size(w.data)) == msize):
+                    fails.append(("the Weibull peak distribution is the same through every entry point (%s vs. summary: parameters "
+                                  "and number of peaks)" % nm, {}, dict(params=wpar, peaks=msize),
+                                  dict(params=fl(w.params), peaks=int(np.size(w.data)))))
+                if np.isfinite(s["gloc"]) and np.isfinite(s["gscale"]) and nn >= 2:
+                    g_n, g_d = w.gumbel_parameters(n=nn), w.gumbel_parameters()
+                    if not (allclose(g_n, (s["gloc"], s["gscale"]), 1e-12) and allclose(g_d, (sd["gloc"], sd["gscale"]), 1e-12)):
+                        fails.append(("Gumbel parameters identical through every entry point (%s.gumbel_parameters(n) / default n = "
+                                      "number of peaks vs. summary with statsdur / statsdur = duration)" % nm, {},
+                                      fl([s["gloc"], s["gscale"], sd["gloc"], sd["gscale"]]), fl(g_n + g_d)))
+        except Exception as e:
+            fails.append(("fitted-distribution entry points of the chain must not raise", {}, "parameters", repr(e)))
+    # affine equivariance (exact map)
+    a, b = inp["a"], inp["b"]
+    kw2 = {} if "filterargs" in kw else kw
+    s2 = TimeSeries("s", t, a * x + b).stats(statsdur=statsdur, quantiles=quant, is_minima=ismin, include_sample=True, **kw2)
+    if "filterargs" not in kw and np.size(s2["sample"]) == msize and all(np.isfinite(pv)):
+        # location-type fields of the fitted (possibly negated) sample
+        loc_map = lambda v: a * v + sign * b
+        tol = 1e-6
+        checks = [("mean", a * s["mean"] + b), ("min", a * s["min"] + b), ("max", a * s["max"] + b), ("std", a * s["std"]),
+                  ("skew", s["skew"]), ("kurt", s["kurt"]), ("tz", s["tz"]), ("wshape", s["wshape"]),
+                  ("wloc", loc_map(s["wloc"])), ("wscale", a * s["wscale"]), ("gloc", loc_map(s["gloc"])), ("gscale", a * s["gscale"])]
+        checks += [(pkey(q), a * s[pkey(q)] + b) for q in qlist]
+        bad = [(nm, float(e), float(s2[nm])) for nm, e in checks
+               if not ((np.isinf(e) and s2[nm] == e) or abs(s2[nm] - e) <= tol * (abs(e) + a * abs(s["wscale"]) + 1e-12))]
+        if bad:
+            fails.append(("summary transforms under x -> a*x+b as location/scale quantities; shape, skewness, kurtosis, tz invariant",
+                          {}, [(x0[0], x0[1]) for x0 in bad], [(x0[0], x0[2]) for x0 in bad]))
+    # mirror
+    s3 = TimeSeries("s", t, -x).stats(statsdur=statsdur, quantiles=quant, is_minima=not ismin, include_sample=True, **kw2)
+    if "filterargs" not in kw:
+        same = all(close(float(s3[nm]), float(s[nm]), 1e-10) for nm in ("wloc", "wscale", "wshape", "gloc", "gscale"))
+        neg = all(close(float(s3[pkey(q)]), -float(s[pkey(q)]), 1e-10) for q in qlist)
+        if not (same and neg and np.allclose(np.sort(s3["sample"]), np.sort(-s["sample"]))):
+            fails.append(("minima variant is the mirror image of the maxima variant of the negated signal", {},
+                          [float(s[nm]) for nm in ("wloc", "wscale", "wshape", "gloc", "gscale")] + [-v for v in pv],
+                          [float(s3[nm]) for nm in ("wloc", "wscale", "wshape", "gloc", "gscale")] + [float(s3[pkey(q)]) for q in qlist]))
+    # fan-out: database and GUI function
+    if inp.get("fanout"):
+        try:
+            db = TsDB()
+            db.add(ts)
+            d1 = db.stats(statsdur=statsdur, quantiles=quant, is_minima=ismin, **kw)
+            key = list(d1.keys())[0]
+            names = ["mean", "wloc", "wscale", "wshape", "gloc", "gscale"] + [pkey(q) for q in qlist]
+            badn = [nm for nm in names if nm not in d1[key] or not close(float(d1[key][nm]), float(s[nm]), 1e-12)]
+            if badn:
+                fails.append(("TsDB.stats equals TimeSeries.stats", {}, {nm: float(s[nm]) for nm in badn},
+                              {nm: float(d1[key].get(nm, np.nan)) for nm in badn}))
+            twin = kw.get("twin", (t[0], t[-1]))
+            g = calculate_stats({"s": ts}, twin, kw.get("filterargs"), minima=ismin)["s"]
+            ref = ts.stats(twin=twin, filterargs=kw.get("filterargs"), statsdur=10800., quantiles=(0.37, 0.57, 0.9), is_minima=ismin,
+                           include_sample=True)
+            names = ("mean", "wloc", "gloc", "gscale", "p_37.00", "p_57.00", "p_90.00")
+            badn = [nm for nm in names if not close(float(g[nm]), float(ref[nm]), 1e-12)]
+            if badn:
+                fails.append(("app.funcs.calculate_stats equals TimeSeries.stats with the GUI defaults", {},
+                              {nm: float(ref[nm]) for nm in badn}, {nm: float(g[nm]) for nm in badn}))
+            # GUI defaults obey the chain as well
+            if all(np.isfinite([float(g[nm]) for nm in names])) and np.size(g["sample"]) >= 2:
+                ng = round(10800. / (g["end"] - g["start"]) * np.size(g["sample"]))
+                gl, gs = weibull2gumbel(g["wloc"], g["wscale"], g["wshape"], ng)
+                exp = [sign * float(v) for v in Gumbel(gl, gs).invcdf(p=[0.37, 0.57, 0.9])]
+                got = [float(g[nm]) for nm in ("p_37.00", "p_57.00", "p_90.00")]
+                if not (close(float(gl), float(g["gloc"]), 1e-12) and close(float(gs), float(g["gscale"]), 1e-12) and allclose(exp, got, 1e-12)):
+                    fails.append(("app.funcs.calculate_stats: quantiles are those of the Gumbel derived from the reported Weibull "
+                                  "parameters and n", {}, [float(gl), float(gs)] + exp, [float(g["gloc"]), float(g["gscale"])] + got))
+        except Exception as e:
+            fails.append(("TsDB.stats / calculate_stats are entry points of the chain (must not raise)", {}, "summary", repr(e)))
+    return fails
+
+
+def gen_summary(rng, fanout, seed):
+    n = rng.choice([600, 1200, 3000])
+    t = np.arange(n) * 0.5
+    kw = {}
+    mode = rng.random()
+    if mode < 0.3:
+        kw["twin"] = [float(t[n // 10]), float(t[-n // 10])]
+    elif mode < 0.5:
+        kw["filterargs"] = ["lp", 0.2]
+    quant = rng.sample(QPOOL, rng.choice([2, 3, 3, 4]))
+    order = rng.random()
+    if order < 0.35:
+        quant = sorted(quant)                           # ascending, as the default
+    elif order < 0.5:
+        quant = sorted(quant, reverse=True)
+    return dict(kind="summary", sig_seed=rng.randint(0, 10 ** 9), n=n, step=rng.choice([1. / 1024, 1. / 1024, 0.125, 0.5]),
+                level=rng.choice([0.0, -5.0, 3.0]),           # also signals at a negative level
+                kwargs=kw, statsdur=rng.choice([10800., 3600., 1000.]), quantiles=quant,
+                qtype=rng.choice(["tuple", "tuple", "list", "array"]), is_minima=rng.random() < 0.4,
+                a=rng.choice([0.5, 2.0, 4.0]), b=float(rng.randint(-8, 8)), prior=rng.random() < 0.4, fanout=fanout, verif_seed=seed)
+
+
+# ---- Weibull -> Gumbel formulas ------------------------------------------------------------------------------------------------------
+def w2g_clauses(inp):
+    from qats.stats.weibull import Weibull, weibull2gumbel
+    from qats.stats.gumbel import Gumbel
+    loc, scale, shape, n = inp["loc"], inp["scale"], inp["shape"], inp["n"]
+    fails = []
+    g1 = weibull2gumbel(loc, scale, shape, n)
+    g2 = Weibull(loc, scale, shape).gumbel_parameters(n=n)
+    g3o = Gumbel.fit_from_weibull_parameters(loc, scale, shape, n)
+    g3 = (g3o.loc, g3o.scale)
+    if not all(close(float(a), float(b), 1e-12) for a, b in zip(g1 + g1, g2 + g3)):
+        fails.append(("the three entry points give identical Gumbel parameters", fl(g1), fl(g2 + g3)))
+    w = Weibull(loc, scale, shape)
+    q = float(w.invcdf(p=[1 - 1 / n])[0])
+    if abs(q - g1[0]) > 1e-9 * (abs(q) + scale) + scale * 1e-9:
+        fails.append(("gloc is the Weibull 1-1/n quantile", q, float(g1[0])))
+    f = float(w.pdf(x=[g1[0]])[0])
+    if not close(1 / (n * f), float(g1[1]), 1e-8):
+        fails.append(("gscale == 1/(n * Weibull density at gloc)", 1 / (n * f), float(g1[1])))
+    return fails, g1, g3
+
+
+def run(chk):
+    from qats import TimeSeries
     chk.extra["rule"] = RULE
     chk.partial += ["statistics summary: composed of C11 (pipeline), C14 (maxima), C16 (pwm) and the identities proved here; its "
                     "consistency / equivariance / mirror clauses are checked on the implementation, not restated as one theorem"]
     rng = chk.rng
+    corpus = core.load_corpus("C17")
     drv = core.Driver()
     N = 200 if chk.quick else 3000
     lines, meta = [], []
@@ -62,54 +341,47 @@ def run(chk):
         inp = dict(loc=loc, scale=scale, shape=shape, n=n)
         chk.count("w2g")
         chk.nontriv(repr(inp))
-        g1 = weibull2gumbel(loc, scale, shape, n)
-        g2 = Weibull(loc, scale, shape).gumbel_parameters(n=n)
-        g3o = Gumbel.fit_from_weibull_parameters(loc, scale, shape, n)
-        g3 = (g3o.loc, g3o.scale)
+        try:
+            fails, g1, g3 = w2g_clauses(inp)
+        except Exception as e:
+            chk.fail("the three entry points give identical Gumbel parameters (must not raise)", inp, "parameters", repr(e))
+            continue
         if not (close(m[0], g1[0]) and close(m[1], g1[1]) and close(m[2], g3[0]) and close(m[3], g3[1])):
             chk.disagree("w2g", inp, m, [float(v) for v in g1 + g3])
-        if not all(close(float(a), float(b), 1e-12) for a, b in zip(g1 + g1, g2 + g3)):
-            chk.fail("the three entry points give identical Gumbel parameters", inp, [float(v) for v in g1],
-                     [float(v) for v in g2 + g3])
-        w = Weibull(loc, scale, shape)
-        q = float(w.invcdf(p=[1 - 1 / n])[0])
-        if abs(q - g1[0]) > 1e-9 * (abs(q) + scale) + scale * 1e-9:
-            chk.fail("gloc is the Weibull 1-1/n quantile", inp, q, float(g1[0]))
-        f = float(w.pdf(x=[g1[0]])[0])
-        if not close(1 / (n * f), float(g1[1]), 1e-8):
-            chk.fail("gscale == 1/(n * Weibull density at gloc)", inp, 1 / (n * f), float(g1[1]))
-    # entry point on a fitted distribution (sample attached): an explicit n is honoured, the default is the sample size
-    for _ in range(20 if chk.quick else 200):
-        w0 = Weibull(round(rng.uniform(0, 5), 2), round(rng.uniform(0.5, 4), 2), rng.choice([1.5, 2.0, 3.0]))
-        data = w0.rnd(size=rng.choice([30, 80]), seed=rng.randint(0, 10 ** 6))
-        wf = Weibull.fit(data, method="pwm")
-        if not all(np.isfinite(wf.params)):
-            continue
-        nn = float(rng.choice([7, 1000, 12345]))
+        for f in fails:
+            chk.fail(f[0], inp, f[1], f[2])
+    # entry point on a fitted distribution (sample attached): an explicit n is honoured, the default is the sample size.
+    # Samples: continuous, logged with one decimal, integer-valued (exact ties), given as ndarray or list, any order
+    fits = [c for c in corpus if c.get("kind") == "fit"]
+    for _ in range(40 if chk.quick else 400):
+        fits.append(dict(kind="fit", w0=[round(rng.uniform(0, 5), 2), round(rng.uniform(0.5, 4), 2), rng.choice([1.5, 2.0, 3.0])],
+                         size=rng.choice([30, 80]), seed=rng.randint(0, 10 ** 6), decimals=rng.choice([None, None, 1, 0]),
+                         order=rng.choice(["drawn", "ascending", "descending"]), aslist=rng.random() < 0.3,
+                         method=rng.choice(["pwm", "pwm", "msm"]), n=float(rng.choice([7, 1000, 12345]))))
+    for inp in fits:
         chk.count("w2g-fitted")
-        inp = dict(fitted=[float(v) for v in wf.params], n=nn, sample_size=int(data.size))
-        g_exp, g_def = weibull2gumbel(*wf.params, nn), weibull2gumbel(*wf.params, data.size)
-        g_got, g_got_def = wf.gumbel_parameters(n=nn), wf.gumbel_parameters()
-        if not (all(close(float(a), float(b), 1e-12) for a, b in zip(g_exp, g_got)) and
-                all(close(float(a), float(b), 1e-12) for a, b in zip(g_def, g_got_def))):
-            chk.fail("the three entry points give identical Gumbel parameters (fitted distribution: explicit n honoured, default n = sample size)",
-                     inp, [float(v) for v in g_exp + g_def], [float(v) for v in g_got + g_got_def])
+        chk.nontriv(repr(inp))
+        chk.dist("fit:%s:%s" % (inp["method"], {None: "continuous", 1: "one-decimal", 0: "integer"}[inp.get("decimals")]))
+        for f in fit_clauses(inp):
+            chk.fail(f[0], inp, f[1], f[2])
     chk.sample(dict(loc=meta[0][0], scale=meta[0][1], shape=meta[0][2], n=meta[0][3]))
+    chk.sample(fits[-1])
     # ---- correspondence of the extreme-value chain of the summary with Qats.Stats.summary (Float) ---------------------------------
     sl, sm = [], []
     for k in range(12 if chk.quick else 150):
         n = rng.choice([600, 1200])
-        t, x = signal(rng, n)
-        x = x + rng.choice([0.0, -5.0, 3.0])
+        sig = dict(sig_seed=rng.randint(0, 10 ** 9), n=n, step=1. / 1024, level=rng.choice([0.0, -5.0, 3.0]))
+        t, x = make_signal(**sig)
         ismin = rng.random() < 0.5
         sd = rng.choice([10800., 3600., 1000.])
-        qs = (0.37, 0.57, 0.9)
+        qs = [0.37, 0.57, 0.9]
+        rng.shuffle(qs)                                 # quantiles in any order: reply compared position by position
         ts = TimeSeries("s", t, x)
-        s_ = ts.stats(statsdur=sd, quantiles=qs, is_minima=ismin, include_sample=True)
+        s_ = ts.stats(statsdur=sd, quantiles=tuple(qs), is_minima=ismin, include_sample=True)
         dur = float(t[-1] - t[0])
         sl.append("st.summary %d %s %s %s %s" % (ismin, fbits(sd), fbits(dur), ",".join(fbits(q) for q in qs), " ".join(fbits(v) for v in x)))
-        sm.append((s_, dict(signal_seed=k, n=n, statsdur=sd, is_minima=ismin)))
-    for (s_, inp), o in zip(sm, drv.run(sl)):
+        sm.append((s_, dict(sig, statsdur=sd, is_minima=ismin, quantiles=list(qs)), list(qs)))
+    for (s_, inp, qs), o in zip(sm, drv.run(sl)):
         chk.count("st.summary")
         if o.strip() == "ok none":
             if np.size(s_["sample"]) > 1:
@@ -117,117 +389,38 @@ def run(chk):
             continue
         a, b, c = o[3:].split("|")
         mv = [unfbits(v) for v in a.split()] + [unfbits(v) for v in b.split()]
-        im = [float(s_[k2]) for k2 in ("wloc", "wscale", "wshape", "gloc", "gscale")] + [float(s_["p_%.2f" % (100 * q)]) for q in (0.37, 0.57, 0.9)]
+        im = [float(s_[k2]) for k2 in ("wloc", "wscale", "wshape", "gloc", "gscale")] + [float(s_.get(pkey(q), np.nan)) for q in qs]
         if int(c) != np.size(s_["sample"]) or not all(close(x1, x2, 1e-8) or (np.isnan(x1) and np.isnan(x2)) for x1, x2 in zip(mv, im)):
             chk.disagree("st.summary", inp, mv, im)
     # ---- statistics summary ------------------------------------------------------------------------------------------------
-    S = 25 if chk.quick else 250
-    for k in range(S):
-        n = rng.choice([600, 1200, 3000])
-        t, x = signal(rng, n)
-        x = x + rng.choice([0.0, -5.0, 3.0])            # also signals at a negative level
-        ts = TimeSeries("s", t, x)
-        kw = {}
-        mode = rng.random()
-        if mode < 0.3:
-            kw["twin"] = (float(t[n // 10]), float(t[-n // 10]))
-        elif mode < 0.5:
-            kw["filterargs"] = ("lp", 0.2)
-        statsdur = rng.choice([10800., 3600., 1000.])
-        quant = tuple(sorted(rng.sample([0.0, 0.1, 0.37, 0.5, 0.57, 0.9, 0.99], 3)))
-        ismin = rng.random() < 0.4
-        inp = dict(signal_seed=k, n=n, kwargs={a: list(b) if isinstance(b, tuple) else b for a, b in kw.items()},
-                   statsdur=statsdur, quantiles=quant, is_minima=ismin, verif_seed=chk.seed)
+    S = 30 if chk.quick else 300
+    cases = [c for c in corpus if c.get("kind") == "summary"]
+    cases += [gen_summary(rng, k < (8 if chk.quick else 40), chk.seed) for k in range(S)]
+    for inp in cases:
         chk.count("stats")
         chk.nontriv(repr(inp))
-        s = ts.stats(statsdur=statsdur, quantiles=quant, is_minima=ismin, include_sample=True, **kw)
-        tt, xx = ts.get(**kw)
-        if s["sample"] is None or np.size(s["sample"]) < 2:
-            chk.dist("stats:too-few-maxima")
-            continue
-        chk.dist("stats:%s:%s" % ("min" if ismin else "max", "twin" if "twin" in kw else ("filter" if kw else "plain")))
-        pv = [s["p_%.2f" % (100 * q)] for q in quant]
-        ok = (s["min"] <= s["mean"] <= s["max"] and close(s["duration"], tt[-1] - tt[0], 1e-12) and s["start"] == tt[0] and
-              s["end"] == tt[-1] and close(s["dtavg"], float(np.mean(np.diff(tt))), 1e-12) and
-              s["min"] == xx.min() and s["max"] == xx.max() and close(s["mean"], float(xx.mean()), 1e-12))
-        if not ok:
-            chk.fail("summary consistent with its parts (min <= mean <= max, start/end/duration, mean step)", inp, "consistent",
-                     {a: float(s[a]) for a in ("min", "mean", "max", "start", "end", "duration", "dtavg")})
-        if not any(np.isnan(pv)):
-            # (a quantile at probability 0 is the lower end of the support: -inf for maxima, +inf for the mirrored minima)
-            inc = all(b > a for a, b in zip(pv, pv[1:])) if not ismin else all(b < a for a, b in zip(pv, pv[1:]))
-            if not inc:
-                chk.fail("quantile estimates monotone in the probability (increasing for maxima, mirrored for minima)", inp,
-                         "monotone", [float(v) for v in pv])
-            # chain: gumbel quantiles of the reported parameters
-            nn = round(statsdur / (tt[-1] - tt[0]) * np.size(s["sample"]))
-            gl, gs = weibull2gumbel(s["wloc"], s["wscale"], s["wshape"], nn)
-            sign = -1.0 if ismin else 1.0
-            exp = [sign * float(v) for v in Gumbel(gl, gs).invcdf(p=quant)]
-            if not (close(gl, s["gloc"], 1e-12) and close(gs, s["gscale"], 1e-12) and all(close(a, b, 1e-12) for a, b in zip(exp, pv))):
-                chk.fail("quantiles are those of the Gumbel derived from the reported Weibull parameters and n = round(statsdur/duration*#maxima)",
-                         inp, exp, [float(v) for v in pv])
-        # affine equivariance (exact map)
-        a, b = rng.choice([0.5, 2.0, 4.0]), float(rng.randint(-8, 8))
-        s2 = TimeSeries("s", t, a * x + b).stats(statsdur=statsdur, quantiles=quant, is_minima=ismin, include_sample=True,
-                                                 **({} if "filterargs" in kw else kw))
-        if "filterargs" not in kw and np.size(s2["sample"]) == np.size(s["sample"]) and all(np.isfinite(pv)):
-            sign = -1.0 if ismin else 1.0
-            # location-type fields of the fitted (possibly negated) sample
-            loc_map = lambda v: a * v + sign * b
-            tol = 1e-6
-            checks = [("mean", a * s["mean"] + b), ("min", a * s["min"] + b), ("max", a * s["max"] + b), ("std", a * s["std"]),
-                      ("skew", s["skew"]), ("kurt", s["kurt"]), ("tz", s["tz"]), ("wshape", s["wshape"]),
-                      ("wloc", loc_map(s["wloc"])), ("wscale", a * s["wscale"]), ("gloc", loc_map(s["gloc"])), ("gscale", a * s["gscale"])]
-            checks += [("p_%.2f" % (100 * q), a * s["p_%.2f" % (100 * q)] + b) for q in quant]
-            bad = [(nm, float(e), float(s2[nm])) for nm, e in checks
-                   if not ((np.isinf(e) and s2[nm] == e) or abs(s2[nm] - e) <= tol * (abs(e) + a * abs(s["wscale"]) + 1e-12))]
-            if bad:
-                chk.fail("summary transforms under x -> a*x+b as location/scale quantities; shape, skewness, kurtosis, tz invariant",
-                         dict(inp, a=a, b=b), [(x0[0], x0[1]) for x0 in bad], [(x0[0], x0[2]) for x0 in bad])
-        # mirror
-        s3 = TimeSeries("s", t, -x).stats(statsdur=statsdur, quantiles=quant, is_minima=not ismin, include_sample=True,
-                                          **({} if "filterargs" in kw else kw))
-        if "filterargs" not in kw:
-            same = all(close(float(s3[nm]), float(s[nm]), 1e-10) or (np.isnan(s3[nm]) and np.isnan(s[nm]))
-                       for nm in ("wloc", "wscale", "wshape", "gloc", "gscale"))
-            neg = all(close(float(s3["p_%.2f" % (100 * q)]), -float(s["p_%.2f" % (100 * q)]), 1e-10) or
-                      (np.isnan(s3["p_%.2f" % (100 * q)]) and np.isnan(s["p_%.2f" % (100 * q)])) for q in quant)
-            if not (same and neg and np.allclose(np.sort(s3["sample"]), np.sort(-s["sample"]))):
-                chk.fail("minima variant is the mirror image of the maxima variant of the negated signal", inp,
-                         [float(s[nm]) for nm in ("wloc", "wscale", "wshape", "gloc", "gscale")],
-                         [float(s3[nm]) for nm in ("wloc", "wscale", "wshape", "gloc", "gscale")])
-        # fan-out: database and GUI function
-        if k < (8 if chk.quick else 40):
-            db = TsDB()
-            db.add(ts)
-            d1 = db.stats(statsdur=statsdur, quantiles=quant, is_minima=ismin, **kw)
-            key = list(d1.keys())[0]
-            for nm in ("mean", "wloc", "gloc", "gscale"):
-                if not (close(float(d1[key][nm]), float(s[nm]), 1e-12) or (np.isnan(d1[key][nm]) and np.isnan(s[nm]))):
-                    chk.fail("TsDB.stats equals TimeSeries.stats", inp, float(s[nm]), float(d1[key][nm]))
-            g = calculate_stats({"s": ts}, kw.get("twin", (t[0], t[-1])), kw.get("filterargs"), minima=ismin)["s"]
-            ref = ts.stats(twin=kw.get("twin", (t[0], t[-1])), filterargs=kw.get("filterargs"), statsdur=10800.,
-                           quantiles=(0.37, 0.57, 0.9), is_minima=ismin, include_sample=True)
-            for nm in ("mean", "wloc", "gloc", "gscale", "p_90.00"):
-                if not (close(float(g[nm]), float(ref[nm]), 1e-12) or (np.isnan(g[nm]) and np.isnan(ref[nm]))):
-                    chk.fail("app.funcs.calculate_stats equals TimeSeries.stats with the GUI defaults", inp, float(ref[nm]), float(g[nm]))
+        try:
+            fails = summary_clauses(inp, chk.dist)
+        except Exception as e:
+            fails = [("the statistics summary and its entry points must not raise", {}, "summary", repr(e))]
+        for f in fails:
+            chk.fail(f[0], dict(inp, **f[1]), f[2], f[3])
+    chk.sample(cases[-1])
 
 
 def replay(rp):
-    from qats.stats.weibull import Weibull, weibull2gumbel
     inp = rp["input"]
-    bad = 0
-    if "shape" in inp:
-        w = Weibull(inp["loc"], inp["scale"], inp["shape"])
-        g = weibull2gumbel(inp["loc"], inp["scale"], inp["shape"], inp["n"])
-        q = float(w.invcdf(p=[1 - 1 / inp["n"]])[0])
-        f = float(w.pdf(x=[g[0]])[0])
-        print("gloc", g[0], "quantile", q, "gscale", g[1], "1/(n f)", 1 / (inp["n"] * f))
-        if abs(q - g[0]) > 1e-8 * (abs(q) + inp["scale"]) or not close(1 / (inp["n"] * f), float(g[1]), 1e-8):
-            bad += 1
+    kind = inp.get("kind") or ("w2g" if "shape" in inp else None)
+    if kind == "w2g":
+        fails = [(f[0], f[1], f[2]) for f in w2g_clauses(inp)[0]]
+    elif kind == "fit":
+        fails = fit_clauses(inp)
+    elif kind == "summary":
+        fails = [(f[0], f[2], f[3]) for f in summary_clauses(inp)]
     else:
-        print("summary replays need the run's seed: VERIF_SEED=%s ./check C17 %s" % (inp.get("verif_seed"), rp.get("tier", "quick")))
-        bad = 1
-    print("replay: %d failing clause(s)" % bad)
-    return 1 if bad else 0
+        print("unknown input kind; re-run with the run's seed: VERIF_SEED=%s ./check C17 %s" % (inp.get("verif_seed"), rp.get("tier", "quick")))
+        return 1
+    for f in fails:
+        print("FAILS: %s\n   expected %s\n   observed %s" % f)
+    print("replay: %d failing clause(s)" % len(fails))
+    return 1 if fails else 0
